@@ -219,6 +219,21 @@ pub fn to_ir_axis(axis: &designspace::Axis) -> Result<fontdrasil::types::Axis, E
             })
             .collect();
 
+        // like fontTools (varLib's _add_avar) require that the outputs not
+        // decrease as the inputs increase; otherwise design min/max are not
+        // the ends of the axis and sources normalize to outside [-1, 1].
+        let mut sorted = examples.clone();
+        sorted.sort_by_key(|(user, _)| *user);
+        if sorted.windows(2).any(|w| w[0].1 > w[1].1) {
+            return Err(Error::InvalidEntry(
+                "axis map",
+                format!(
+                    "output values for axis '{}' ({tag}) are not in ascending order",
+                    axis.name
+                ),
+            ));
+        }
+
         // make sure we have min/max/default mappings:
         let has_min_max =
             examples.iter().any(|(u, _)| *u == min) && examples.iter().any(|(u, _)| *u == max);
@@ -491,6 +506,35 @@ mod tests {
         ];
         let result = to_design_location(&tags_by_name, &loc_with_tags);
         assert_eq!(result.iter().count(), 0, "undefined axes should be skipped");
+    }
+
+    #[test]
+    fn non_monotonic_axis_map_is_an_error() {
+        let axis = |outputs: [f32; 3]| designspace::Axis {
+            name: "Weight".into(),
+            tag: "wght".into(),
+            minimum: Some(400.0),
+            default: 400.0,
+            maximum: Some(700.0),
+            map: Some(
+                [400.0, 500.0, 700.0]
+                    .into_iter()
+                    .zip(outputs)
+                    .map(|(input, output)| designspace::AxisMapping { input, output })
+                    .collect(),
+            ),
+            ..Default::default()
+        };
+        assert!(to_ir_axis(&axis([400.0, 500.0, 600.0])).is_ok());
+        // flat segments are fine
+        assert!(to_ir_axis(&axis([400.0, 400.0, 600.0])).is_ok());
+        for outputs in [[400.0, 600.0, 500.0], [400.0, 500.0, 0.0]] {
+            let result = to_ir_axis(&axis(outputs));
+            assert!(
+                matches!(result, Err(Error::InvalidEntry("axis map", _))),
+                "{result:?}"
+            );
+        }
     }
 
     /// Test parsing component anchors from glyphsLib's ComponentInfo in glyph lib.
